@@ -895,7 +895,7 @@ fn run_inner(a: &Args) {
     cx.out.op("Z".into(), format!("elemsize={}", std::mem::size_of::<RespValueZeroCopy>()));
     fixed_corpus(&mut cx);
     primitives(&mut cx, &mut rng, if quick { 300 } else { 5000 });
-    exhaustive(&mut cx, if quick { 4 } else { 6 });
+    exhaustive(&mut cx, if quick { 5 } else { 6 });
     header_exhaustive(&mut cx, if quick { 3 } else { 4 });
 
     // round trips of all small values
